@@ -227,6 +227,14 @@ def replay(o, ctx, scenario):
                 sizes = sorted(len(x) for x in g)
                 if sizes != want:
                     devs.append({"options": extra, "group_sizes": sizes, "documented": want})
+            # hard links are one replica in every pipeline (also those that end with the permissive filter)
+            os.makedirs(os.path.join(d, "h"))
+            open(os.path.join(d, "h", "x.bin"), "wb").write(b"H" * 300)
+            os.link(os.path.join(d, "h", "x.bin"), os.path.join(d, "h", "x_link.bin"))
+            for extra in ([], ["--skip-content-hash"], ["--transform", "cat"]):
+                g, st = cli_groups(binary, extra + ["h"], d, env)
+                if g:
+                    devs.append({"options": extra + ["h (a file and its hard link)"], "groups": g, "documented": "no group: one replica"})
         o.cex["native_replay"] = {"deviations": devs[:4]}
         if devs:
             o.stats["traces_validated"] = 1
